@@ -196,8 +196,8 @@ def ofCyChain (q : Cy.Query) : Option Ch.Query :=
 
 /-- THE MODEL TRANSLATOR over the proved stages S1, S2b (one hop with WHERE) and S2c (chains of two or three hops); the join order of the
 (first) hop is the parameter `flipOf` / `flipCh` -/
-def tr3F (flipOf : S2.Query → Bool) (flipCh : Ch.Query → Bool) (km : KindMap) (q : Cy.Query) : Option (Sql.Stmt × List (String × Val)) :=
-  match tr2F flipOf km q with
+def tr3F (flipOf : S2.Query → Bool) (flipCh : Ch.Query → Bool) (prune : Bool) (km : KindMap) (q : Cy.Query) : Option (Sql.Stmt × List (String × Val)) :=
+  match tr2F flipOf prune km q with
   | some r => some r
   | none =>
     match ofCyChain q with
